@@ -266,7 +266,7 @@ def emit_fn(out, item, contract, mode, file, container, info, no_pub=False, cana
         raw = item.body()
         sha = hashlib.sha256(raw.encode()).hexdigest()
         if not trusted:
-            body, rules_log, nlog = normalise(raw, c.rules if (c and c.rules is not None) else None)
+            body, rules_log, nlog = normalise(raw, c.rules if (c and c.rules is not None) else None, c.n1_values if c else ())
             if c:
                 body = annotate_body(body, c, rules_log, degraded)
             # every while/loop must carry a decreases clause; if the contract has none for it, termination is
@@ -318,6 +318,14 @@ def emit_fn(out, item, contract, mode, file, container, info, no_pub=False, cana
             out.add("    ensures", fn=fkey)
             for cl in c.ensures:
                 out.add("        %s," % cl.text, fn=fkey, labels=cl.labels, kind="ensures", clause=cl.text)
+    if c and c.assumed and trusted:
+        if not c.ensures:
+            out.add("    ensures", fn=fkey)
+        for cl in c.assumed:
+            out.add("        %s," % cl.text, fn=fkey, labels=cl.labels, kind="assumed", clause=cl.text)
+    if c and c.assumed:
+        for cl in c.assumed:
+            info.setdefault("assumed_clauses", []).append({"fn": fkey, "labels": cl.labels, "clause": cl.text})
     if findings and c and c.findings and has_body and not trusted:
         if not c.ensures:
             out.add("    ensures", fn=fkey)
@@ -645,6 +653,15 @@ def generate(unit_name, repo=None, extra_fn_hook=None, canary=False, findings=Fa
         info.setdefault("pins_seen", {})[fkey] = sha
         info["functions"].append({"fn": fkey, "mode": "pinned", "sha256": sha, "rules_applied": [], "logging_stmts_dropped": 0,
                                   "trusted_reason": pn.get("why"), "degraded": [], "termination_unproved": False})
+    # syntactic obligations: identifiers a file must not mention (supports an assumed clause)
+    for fb in unit.get("forbid", []):
+        ftxt = mask(open(os.path.join(repo, fb["file"])).read())
+        found = [w for w in fb["idents"] if re.search(r"(?<![A-Za-z0-9_])%s(?![A-Za-z0-9_])" % re.escape(w), ftxt)]
+        raw = open(os.path.join(repo, fb["file"])).read()
+        found += [w for w in fb["idents"] if w not in found and ('"%s"' % w) in raw]
+        info.setdefault("structural", []).append({
+            "item": fb["file"], "labels": fb.get("labels", []), "ok": not found, "have": found, "want": [],
+            "clause": "%s mentions none of %s (%s)" % (fb["file"], fb["idents"], fb.get("why", ""))})
     out.add("} // verus!")
     out.add("fn main() {}")
     # contracts that were given but never used indicate a renamed/removed function: lost anchor
